@@ -433,7 +433,31 @@ func (e *Engine) specBuiltin(env *Env, name string, ex *SExpr) (Val, bool) {
 			ks, a.S, b.S, b.S, a.S)
 		return Val{S: f, T: tBool}, true
 	}
-	return Val{}, false
+	return e.netBuiltin(env, name, ex)
+}
+
+// returnHook: "at return:" clauses of the function that returns (locals and results visible).
+func (e *Engine) returnHook(st *State, fr *Frame, results []Val, pos token.Pos, ins ssa.Instruction) {
+	ct := e.contractFor(fr.fn)
+	if ct == nil {
+		return
+	}
+	for _, ev := range ct.Events {
+		if ev.Kind != "at" || ev.Target != "return" {
+			continue
+		}
+		env := e.eventEnv(st, fr, ev, nil)
+		var res Val
+		switch len(results) {
+		case 0:
+		case 1:
+			res = results[0]
+		default:
+			res = Val{T: fr.fn.Signature.Results(), Tup: results}
+		}
+		e.bindResults(env, fr.fn, res)
+		e.runEvent(st, fr, ev, env, "return", pos, ins)
+	}
 }
 
 func (e *Engine) streamRead(st *State, fr *Frame, reader, buf Val, n, er Val) {}
